@@ -202,8 +202,8 @@ func c10Accept(c *Ctx) {
 		c.Check(okNonce, r, p.FName(fn)+" fresh nonce", p.Pos(fn.Pos()), "Nonce: MakeSerial()", "the request nonce is not a fresh random serial (replayed replies would be accepted)")
 		c.Check(okImprint, r, p.FName(fn)+" imprint from caller", p.Pos(fn.Pos()), "HashedMessage: hashValue", "the request imprint is not the caller's digest")
 	}
-	if fn := p.Func("lib/pkcs9/tsclient.(tsClient).do"); fn == nil {
-		c.Undecided(r, "tsClient.do", "-", "function not found")
+	if fn := c10AttemptFn(p); fn == nil {
+		c.Undecided(r, "tsClient.do", "-", "no function of lib/pkcs9/tsclient sends the HTTP request ((*http.Client).Do)")
 	} else {
 		c.Analysed(p.FName(fn))
 		doOK := p.callGuard("HTTP Do err==nil", []string{"(*net/http.Client).Do"}, 1, IsNil, nil)
@@ -651,6 +651,22 @@ func c10Swallow(c *Ctx) {
 	c.Check(nilable == "", r, "internal/signinit.Init installs a timestamper that is not nil", p.Pos(store.Pos()), "", "what Init stores into cert.Timestamper may be nil while Init succeeds ("+nilable+"): every signer treats a nil Timestamper as 'no timestamp wanted', so keys configured with `timestamp: true` are signed without one and nothing reports it")
 }
 
+// c10AttemptFn: the function of lib/pkcs9/tsclient that makes one attempt with one authority -
+// the one that sends the HTTP request. Found by what it does, so that renaming it or turning
+// the method into a plain function changes nothing.
+func c10AttemptFn(p *Prog) *ssa.Function {
+	var out *ssa.Function
+	for _, fn := range p.pkgFuncs("lib/pkcs9/tsclient") {
+		if len(p.callsIn(fn, "(*net/http.Client).Do")) > 0 {
+			if out != nil {
+				return nil
+			}
+			out = fn
+		}
+	}
+	return out
+}
+
 func c10Failover(c *Ctx) {
 	p := c.P
 	const r = "R10d"
@@ -661,7 +677,14 @@ func c10Failover(c *Ctx) {
 	}
 	c.Analysed(p.FName(fn))
 	fname := p.FName(fn)
-	dos := p.callsIn(fn, "(lib/pkcs9/tsclient.tsClient).do")
+	var dos []ssa.CallInstruction
+	if at := c10AttemptFn(p); at != nil {
+		for _, ci := range callsOf(fn) {
+			if ci.Common().StaticCallee() == at {
+				dos = append(dos, ci)
+			}
+		}
+	}
 	if len(dos) != 1 {
 		c.Undecided(r, fname+" attempt", p.Pos(fn.Pos()), fmt.Sprintf("%d calls to do", len(dos)))
 		return
@@ -683,7 +706,13 @@ func c10Failover(c *Ctx) {
 		return
 	}
 	// ordered: the url argument is urls[i] with i an induction variable stepping by +1
-	urlArg := do.Call.Args[2]
+	// the url argument: the one string argument of the attempt
+	var urlArg ssa.Value
+	for _, a := range do.Call.Args {
+		if bt, ok := a.Type().Underlying().(*types.Basic); ok && bt.Kind() == types.String {
+			urlArg = a
+		}
+	}
 	ordered := false
 	if l, ok := urlArg.(*ssa.UnOp); ok && l.Op == token.MUL {
 		if ia, ok := l.X.(*ssa.IndexAddr); ok {
@@ -848,11 +877,19 @@ func c10VerifySide(c *Ctx) {
 		}
 	}
 	c.Check(n >= 2, r, "CounterSignature constructions", "-", "", "expected constructions in finishVerify and VerifyMicrosoftToken")
+	blobParam, blobPath := 1, []int(nil)
 	if fn := p.Func("lib/pkcs9.finishVerify"); fn != nil {
 		c.Analysed(p.FName(fn))
+		// the signer info and the blob are the ones the caller passed: parameters, or fields of a
+		// parameter struct (blobParam/blobPath say where, for the callers' side below)
 		g := p.callGuard("SignerInfo.Verify err==nil", []string{"(*lib/pkcs7.SignerInfo).Verify"}, 1, IsNil, func(ci ssa.CallInstruction) bool {
 			a := ci.Common().Args
-			return a[0] == fn.Params[0] && a[1] == fn.Params[1]
+			_, _, ok0 := inputOf(fn, a[0])
+			bp, bpath, ok1 := inputOf(fn, a[1])
+			if ok0 && ok1 {
+				blobParam, blobPath = bp, bpath
+			}
+			return ok0 && ok1
 		})
 		for i, ret := range p.successReturns(fn) {
 			missing, path := p.unguardedFromEntry(fn, ret, g)
@@ -937,7 +974,16 @@ func c10VerifySide(c *Ctx) {
 		n := 0
 		for _, ci := range p.callsIn(fn, "lib/pkcs9.Verify", "lib/pkcs9.finishVerify") {
 			n++
-			_, f, _ := p.fieldLoad(ci.Common().Args[1])
+			var data ssa.Value
+			if p.calleeName(ci.Common()) == "lib/pkcs9.finishVerify" {
+				data = actualOf(ci.Common(), blobParam, blobPath)
+			} else {
+				data = ci.Common().Args[1]
+			}
+			f := ""
+			if data != nil {
+				_, f, _ = p.fieldLoad(data)
+			}
 			c.Check(f == "EncryptedDigest", r, fmt.Sprintf("%s checks against the parent signature value#%d", p.FName(fn), n), p.Pos(ci.Pos()), "data = sig.SignerInfo.EncryptedDigest", "the countersignature is not checked against the enclosing signature's value")
 		}
 		c.Check(n == 2, r, p.FName(fn)+" handles token and counterSignature forms", p.Pos(fn.Pos()), "", fmt.Sprintf("%d verification calls, expected 2", n))
